@@ -1,11 +1,14 @@
-SPECIFICATION Spec
+SPECIFICATION SpecR
 CONSTANTS
   Res = {1, 2}
   RuleCfgs <- MCCfgs
   Batches <- MCBatches
   MaxReq = 5
   Wrap = FALSE
-VIEW view
-INVARIANTS TypeOK Iff FirstRuleReported Cap Reusable
-PROPERTIES RejectedNeverInflight
+  RelLists <- MCNoRel
+  MaxRel = 0
+  ClearBug = FALSE
+VIEW viewR
+INVARIANTS TypeOKR Iff FirstRuleReported CapR Reusable IffR FirstRuleR InForce
+PROPERTIES RejectedNeverInflight CapStep ReloadKeepsInflight
 CHECK_DEADLOCK FALSE
